@@ -14,7 +14,8 @@ LEVEL = "exploration"
 RULE = ("one case = one sync line (B n / TS u [l] / A us, ticks of 1-12 digits, optional leading zeros) decoded by the real "
         "file parser inside a chart; evaluations = lines compared with the integer oracle; distinct non-trivial = distinct "
         "(kind, value) pairs counted per shard over disjoint slices/strata of the value space; thorough enumerates every "
-        "n in 1..10^7, quick every n in 1..20000 plus every n <= 200000 whose split-sum float differs from n/1000")
+        "n in 1..10^7, quick every n in 1..20000 plus every n <= 200000 whose split-sum float differs from n/1000; both tiers add "
+        "13-60 digit values (around 2^53 and powers of ten) for the 'and beyond' part")
 ASSUMPTIONS = [
     "sync lines use Moonscraper's layout (two-space indent, single blanks, no trailing blanks on A lines)",
     "many-digit ticks are paired with fast tempi so every time stays inside timedelta's range",
@@ -28,7 +29,7 @@ def exhaustive(tier):
 
 
 def required(tier):
-    return ["B:n<1000", "B:n%1000==0", "B:n>=10^7", "B:split_sum_differs", "TS:no_exponent", "TS:exponent", "A:anchor",
+    return ["B:n<1000", "B:n%1000==0", "B:n>=10^7", "B:split_sum_differs", "B:n>=2^53", "TS:no_exponent", "TS:exponent", "A:anchor",
             "tick_digits>=10", "leading_zeros"]
 
 
@@ -40,6 +41,7 @@ def shards(tier, seed):
         out.append({"name": "regress", "kind": "regress", "lo": 20001, "hi": 200000})
         for i in range(9):
             out.append({"name": f"sample-{i}", "kind": "sample", "stratum": i, "count": 12000, "lo": 200001})
+        out.append({"name": "huge-0", "kind": "huge", "count": 6000})
         out.append({"name": "ts-0", "kind": "ts", "count": 3000})
         out.append({"name": "digits-0", "kind": "digits", "count": 1500})
     else:
@@ -49,6 +51,7 @@ def shards(tier, seed):
         for i in range(S):
             out.append({"name": f"sample-{i}", "kind": "sample", "stratum": i, "count": 40000, "lo": 10**7 + 1})
         for i in range(4):
+            out.append({"name": f"huge-{i}", "kind": "huge", "count": 40000})
             out.append({"name": f"ts-{i}", "kind": "ts", "count": 20000})
             out.append({"name": f"digits-{i}", "kind": "digits", "count": 10000})
     return out
@@ -199,6 +202,22 @@ def run_shard(shard, rec, tier, seed):
             if n >= shard["lo"]:
                 ns.add(n)
         judge_tempos(rec, sorted(ns, key=lambda _: rng.random()), shard["name"])
+    elif k == "huge":
+        # "and beyond": 13..60-digit values, around 2^53 (where int -> float conversion starts to round) and powers of ten
+        ns = set()
+        for e in range(50, 70):
+            for d in (-3, -1, 0, 1, 2, 3, 5, 7):
+                ns.add(2**e + d)
+        for e in range(13, 60):
+            ns.update({10**e, 10**e + 1, 10**e - 1, 3 * 10**e + 995})
+        while len(ns) < shard["count"]:
+            digits = rng.randint(13, 60)
+            ns.add(rng.randint(10 ** (digits - 1), 10**digits - 1))
+        ns = sorted(ns, key=lambda _: rng.random())
+        for n in ns:
+            if n >= 2**53:
+                rec.cls("B:n>=2^53")
+        judge_tempos(rec, ns, shard["name"])
     elif k == "ts":
         truth = ts_case(rng, shard["count"])
         case = gen.render_truth(truth)
